@@ -120,7 +120,7 @@ def gen_unit(gen_dir, index, specs, fname, prop, path, extra_harness=''):
     ret, name, params = split_params(index['functions'][fname]['sig'])
     L.append('void bg_harness(void) {')
     L.append('  G_P = nondet_vertex(); G_Q = nondet_vertex(); bg_exc = nondet_int();')
-    L.append('  bg_scratch_row.valid = nondet_bg_bool(); bg_scratch_row.owner = 0; bg_scratch_row.from = 0;')
+    L.append('  bg_scratch_row.valid = nondet_bg_bool(); bg_scratch_row.owner = 0; bg_scratch_row.from = 0; bg_cur_adj = 0;')
     for t in ('VLabel', 'NoLabel', 'uint', 'real'):
         L.append('  bg_scratch_val_%s.valid = 0;' % t)
     if extra_harness:
